@@ -58,10 +58,14 @@ def sampling_program(n, use_mask, stratified, B):
                 buf = rb.PrioritizedReplayBuffer(n)
                 buf.priority.priority = _arr(ctx, ps)
                 idxs = buf.prioritized_sampling_stratified(cur_len, B, rng, mask)
+                stored = buf.priority.priority
             else:
                 pb = rb.PriorityBuffer(n)
                 pb.priority = _arr(ctx, ps)
                 idxs = pb.prioritized_sampling(cur_len, B, rng, mask)
+                stored = pb.priority
+            for j in range(n):
+                ctx.check(stored[j] == ps[j], "sampling-leaves-the-stored-priorities-unchanged")
             ctx.check(len(idxs) == B, "one-index-per-requested-sample")
             w = [ps[j] * (mvals[j] if use_mask else 1) for j in range(cur_len)]
             total = 0
@@ -79,7 +83,7 @@ def sampling_program(n, use_mask, stratified, B):
     return prog
 
 
-def bookkeeping_program(cls_name, N, n_ops):
+def bookkeeping_program(cls_name, N, n_ops, tier_quick=True):
     from rl_blox.blox import replay_buffer as rb
 
     def prog(ctx):
@@ -88,18 +92,19 @@ def bookkeeping_program(cls_name, N, n_ops):
             stored = {}  # slot -> reference priority
             n_added = 0
             last = None
-            for i in range(n_ops):
-                op = sym_int(f"op{i}", 0, 3) if n_added else 0
+            n_init = int(sym_int("n_initial_adds", 1, N + 2))
+            for i in range(n_init + n_ops):
+                op = 0 if i < n_init else sym_int(f"op{i}", 0, 3)
                 if op == 0:
                     slot = buf.insert_idx
                     before = buf.priority.max_priority
                     buf.add_sample(observation=[sym_real(f"o{i}")], action=sym_real(f"a{i}"), reward=sym_real(f"r{i}"), next_observation=[sym_real(f"n{i}")], termination=sym_bool(f"t{i}"))
                     n_added += 1
-                    stored[int(slot)] = before
+                    stored[int(slot)] = before  # overwriting a slot replaces its reference priority
                     ctx.check(buf.priority.priority[int(slot)] == before, "new-transition-receives-the-current-maximum-priority")
                     ctx.log.append("add")
                 elif op == 1:
-                    out = buf.sample_batch(2, RngStub(f"rng{i}"))
+                    out = buf.sample_batch(1 if tier_quick else 2, RngStub(f"rng{i}"))
                     last = [int(x) for x in (buf.priority.sampled_indices if cls_name == "LAP" else getattr(buf, "sampled_indices", buf.priority.sampled_indices))]
                     for ix in last:
                         ctx.check((0 <= ix) & (ix < len(buf)), "sampled-index-within-the-filled-region")
@@ -208,7 +213,7 @@ def _priority_formulas(rep, tier, seed):
 def main(tier, seed):
     rep = E2Report(PROP, tier, seed)
     ns = [2, 3] if tier == "quick" else [2, 3, 4]
-    rep.r.bounds = {"priority_vector_len": ns, "batch": [1, 2], "bookkeeping_ops": 4 if tier == "quick" else 5, "capacity": 2,
+    rep.r.bounds = {"priority_vector_len": ns, "batch": [1, 2], "bookkeeping_ops": 3 if tier == "quick" else 4, "capacity": 2,
                     "uniform variates": "symbolic reals in the OPEN interval (0,1)", "priorities": "symbolic reals > 0; mask entries symbolic in {0,1} with >=1 valid"}
     rep.r.assumptions = ["real arithmetic (rounding of u*total outside the claim)", "x**y is uninterpreted with sound ground axioms (positivity, monotonicity in the base, x**0=1)",
                          "probability p_i/sum(p): shown as 'index i is returned exactly for u*total in (C_{i-1}, C_i]', an interval of length p_i*mask_i; the measure-theoretic step (u uniform) is trusted",
@@ -219,7 +224,7 @@ def main(tier, seed):
             rep.run(f"PriorityBuffer.prioritized_sampling[n={n},mask={use_mask}]", sampling_program(n, use_mask, False, 2 if n < 4 else 1), fn="PriorityBuffer.prioritized_sampling")
         rep.run(f"PrioritizedReplayBuffer.prioritized_sampling_stratified[n={n}]", sampling_program(n, False, True, 2), fn="PrioritizedReplayBuffer.prioritized_sampling_stratified")
     for cls in ("LAP", "PrioritizedReplayBuffer"):
-        rep.run(f"{cls}:priority-bookkeeping", bookkeeping_program(cls, 2, rep.r.bounds["bookkeeping_ops"]), fn=f"{cls}.add_sample/sample_batch/update_priority/reset_max_priority",
+        rep.run(f"{cls}:priority-bookkeeping", bookkeeping_program(cls, 2, rep.r.bounds["bookkeeping_ops"], tier == "quick"), max_paths=60000, fn=f"{cls}.add_sample/sample_batch/update_priority/reset_max_priority",
                 site_of=(lambda label, cls=cls: f"{cls}:{label}"))
     for n in ([2] if tier == "quick" else [2, 3]):
         rep.run(f"compute_importance_ratio[n={n}]", weights_program(n, 2), fn="PrioritizedReplayBuffer.compute_importance_ratio")
